@@ -104,3 +104,126 @@ Theorem C38_checkBounds_agrees_with_generic : forall vr d args e0 body,
   (0 < cb -> bounds_status (generic R Rltb vr d args (length (inputs d)) PStrict e0 body) = - cb).
 Proof. exact cb_generic. Qed.
 Print Assumptions C38_checkBounds_agrees_with_generic.
+
+(* ---- extensions ---------------------------------------------------------------------------------------------- *)
+(* every status is one of -5 .. 1 when no parameters file is involved *)
+Theorem C38_status_range : forall vr d args nargs p e0 body, -5 <= status (generic R Rltb vr d args nargs p e0 body) <= 1.
+Proof. exact status_range. Qed.
+Print Assumptions C38_status_range.
+
+(* NaN arguments: not specified by the documentation; the emitted tests are comparisons, which NaN passes *)
+Theorem C38_nan_violates_no_bound_in_the_emitted_tests : forall b : bounds R, oob R Rltb b NaN = false.
+Proof. exact nan_passes. Qed.
+Print Assumptions C38_nan_violates_no_bound_in_the_emitted_tests.
+
+(* status -6: the parameters file `<name>-parameters.txt` is read (parameters, not static, initialisation from file allowed)
+   and has a line which is neither blank, nor a comment, nor `<parameter name> <number>`; nan, errno restored *)
+Theorem C38_parameters_file_error_status : forall vr o pf d args p e0 body, o_nochecks o = false -> handler_ok o pf = false ->
+  generic_opt R Rltb vr o pf d args (length (inputs d)) p e0 body = Res (-6) 0 0 NaN e0.
+Proof. exact opt_minus6. Qed.
+Print Assumptions C38_parameters_file_error_status.
+
+Theorem C38_handler_fails_iff_bad_line : forall o pf,
+  handler_ok o pf = false <-> reads_file o = true /\ exists ls, pf = Some ls /\ exists l, In l ls /\ bad_line l.
+Proof. exact handler_not_ok. Qed.
+Print Assumptions C38_handler_fails_iff_bad_line.
+
+Theorem C38_status_minus_six_only_from_parameters_file : forall vr o pf d args nargs p e0 body,
+  status (generic_opt R Rltb vr o pf d args nargs p e0 body) = -6 ->
+  o_nochecks o = false /\ nargs = length (inputs d) /\ handler_ok o pf = false.
+Proof. exact opt_minus6_only. Qed.
+Print Assumptions C38_status_minus_six_only_from_parameters_file.
+
+(* static parameters, parameters_initialization_from_file = false, no file, a well-formed file: nothing changes *)
+Theorem C38_options_are_neutral_otherwise : forall vr o pf d args nargs p e0 body, o_nochecks o = false -> handler_ok o pf = true ->
+  generic_opt R Rltb vr o pf d args nargs p e0 body = generic R Rltb vr d args nargs p e0 body.
+Proof. exact opt_neutral. Qed.
+Print Assumptions C38_options_are_neutral_otherwise.
+
+Theorem C38_file_ignored_when_not_read : forall o pf, reads_file o = false -> handler_ok o pf = true.
+Proof. exact handler_ok_without_file. Qed.
+Print Assumptions C38_file_ignored_when_not_read.
+
+(* disable_runtime_checks: no bounds, no argument count, no errno / finiteness test: 0 and the value, or -2 and nan *)
+Theorem C38_disabled_runtime_checks : forall vr o pf d args nargs p e0 body, o_nochecks o = true ->
+  let g := generic_opt R Rltb vr o pf d args nargs p e0 body in
+  bounds_status g = 0 /\ c_error_number g = 0 /\
+  match body with Throws => status g = -2 /\ ret g = NaN | Returns v _ => status g = 0 /\ ret g = v end.
+Proof. exact opt_nochecks. Qed.
+Print Assumptions C38_disabled_runtime_checks.
+
+(* ---- c++ interface: static checkBounds and the functor ------------------------------------------------------- *)
+(* physical bounds: std::range_error naming the first offender, under every policy *)
+Theorem C38_cxx_checkBounds_physical : forall d args p i, first_viol v_phys d args i ->
+  cxx_checkBounds R Rltb false d args p = CbThrow i true.
+Proof. exact cxx_cb_physical. Qed.
+Print Assumptions C38_cxx_checkBounds_physical.
+
+Theorem C38_cxx_checkBounds_strict : forall d args i, no_viol v_phys d args -> first_viol v_bounds d args i ->
+  cxx_checkBounds R Rltb false d args PStrict = CbThrow i false.
+Proof. exact cxx_cb_strict. Qed.
+Print Assumptions C38_cxx_checkBounds_strict.
+
+(* Warning: never throws on standard bounds and reports exactly the out-of-bounds inputs *)
+Theorem C38_cxx_checkBounds_warning : forall d args, no_viol v_phys d args ->
+  exists w, cxx_checkBounds R Rltb false d args PWarning = CbPass w /\ forall i, In i w <-> viol_rank v_bounds d args i.
+Proof. exact cxx_cb_warning. Qed.
+Print Assumptions C38_cxx_checkBounds_warning.
+
+Theorem C38_cxx_checkBounds_none : forall d args, no_viol v_phys d args -> cxx_checkBounds R Rltb false d args PNone = CbPass [].
+Proof. exact cxx_cb_none. Qed.
+Print Assumptions C38_cxx_checkBounds_none.
+
+Theorem C38_cxx_checkBounds_inside : forall d args p, no_viol v_phys d args -> no_viol v_bounds d args ->
+  cxx_checkBounds R Rltb false d args p = CbPass [].
+Proof. exact cxx_cb_inside. Qed.
+Print Assumptions C38_cxx_checkBounds_inside.
+
+(* the three interfaces agree: what makes the c++ checkBounds throw makes the generic interface fail with minus that rank ... *)
+Theorem C38_cxx_checkBounds_agrees_with_generic : forall vr d args p e0 body i ph,
+  cxx_checkBounds R Rltb false d args p = CbThrow i ph ->
+  let g := generic R Rltb vr d args (length (inputs d)) p e0 body in
+  status g = -1 /\ bounds_status g = - Z.of_nat i /\ ret g = NaN.
+Proof. exact cxx_cb_generic. Qed.
+Print Assumptions C38_cxx_checkBounds_agrees_with_generic.
+
+(* ... and is what the C interface's _checkBounds reports *)
+Theorem C38_cxx_checkBounds_agrees_with_c : forall d args p,
+  match cxx_checkBounds R Rltb false d args p with
+  | CbThrow i true => c_checkBounds R Rltb d args = - Z.of_nat i
+  | CbThrow i false => c_checkBounds R Rltb d args = Z.of_nat i /\ p = PStrict
+  | CbPass w => 0 <= c_checkBounds R Rltb d args /\ forall i, In i w -> p = PWarning
+  end.
+Proof. exact cxx_cb_c. Qed.
+Print Assumptions C38_cxx_checkBounds_agrees_with_c.
+
+(* the functor: checkBounds first; the output's physical bounds under every policy, its bounds under Strict / Warning *)
+Theorem C38_cxx_call_fails_as_checkBounds : forall d args p body i ph, cxx_checkBounds R Rltb false d args p = CbThrow i ph ->
+  cxx_call R Rltb false d args p body = XRange i ph.
+Proof. exact cxx_call_checkBounds. Qed.
+Print Assumptions C38_cxx_call_fails_as_checkBounds.
+
+Theorem C38_cxx_call_output_bounds : forall d args p w x, cxx_checkBounds R Rltb false d args p = CbPass w ->
+  let r := cxx_call R Rltb false d args p (Returns (Fin x) 0) in
+  (outside_opt (v_phys (output d)) (Fin x) -> r = XRange (S (length (inputs d))) true) /\
+  (~ outside_opt (v_phys (output d)) (Fin x) -> outside_opt (v_bounds (output d)) (Fin x) ->
+     match p with PStrict => r = XRange (S (length (inputs d))) false
+                | PWarning => r = XValue (Fin x) (w ++ [S (length (inputs d))])
+                | PNone => r = XValue (Fin x) w end) /\
+  (~ outside_opt (v_phys (output d)) (Fin x) -> ~ outside_opt (v_bounds (output d)) (Fin x) -> r = XValue (Fin x) w).
+Proof. exact cxx_call_output. Qed.
+Print Assumptions C38_cxx_call_output_bounds.
+
+Theorem C38_cxx_call_inside : forall d args p x, no_viol v_phys d args -> no_viol v_bounds d args ->
+  ~ outside_opt (v_phys (output d)) (Fin x) -> ~ outside_opt (v_bounds (output d)) (Fin x) ->
+  cxx_call R Rltb false d args p (Returns (Fin x) 0) = XValue (Fin x) [].
+Proof. exact cxx_call_inside. Qed.
+Print Assumptions C38_cxx_call_inside.
+
+(* a value comes back only when nothing went wrong *)
+Theorem C38_cxx_call_value_means_success : forall d args p body v w, cxx_call R Rltb false d args p body = XValue v w ->
+  exists el w0, body = Returns v el /\ cxx_checkBounds R Rltb false d args p = CbPass w0 /\
+                ~ outside_opt (v_phys (output d)) v /\ (p = PStrict -> ~ outside_opt (v_bounds (output d)) v) /\
+                ((0 < length (inputs d))%nat -> el = 0 /\ isfinite R v = true).
+Proof. exact cxx_call_value. Qed.
+Print Assumptions C38_cxx_call_value_means_success.
